@@ -8,7 +8,7 @@ import space
 
 HEADER = """From Coq Require Import ZArith QArith List.
 From PG Require Import base.Ops base.Show model.CoalModels model.StateSpace model.Rewards model.Check
-                       model.Matrix model.Mutation model.MutationProb.
+                       model.Matrix model.PhaseType model.Mutation model.MutationProb.
 Import ListNotations.
 Open Scope Q_scope.
 """
@@ -34,6 +34,18 @@ def run(res, replay=None):
                               n_demes=rng.choice([1, 1, 2]), n_epochs=1, end_time='never')
             cases.append({'spec': s, 'theta': rng.choice([0.0, 0.0625, 0.25, 1.0, 2.0]),
                           'max_mut': 3 if res.tier == 'quick' else 4})
+    if not replay:
+        # larger samples, a few configurations mixing low and high frequency classes (Kingman, one deme, exact rationals)
+        for n_big in ([9] if res.tier == 'quick' else [9, 10]):
+            z = [0] * (n_big - 1)
+            cf = []
+            for a, b_, ca, cb in ((0, n_big - 2, 2, 1), (0, n_big - 2, 1, 2), (1, n_big - 2, 2, 1), (3, n_big - 2, 1, 1)):
+                v = list(z); v[a] = ca; v[b_] = cb
+                cf.append(v)
+            cases.append({'spec': {'n_items': [['a', n_big]], 'model': {'kind': 'kingman'}, 'pop_sizes': {'a': {'0.0': 1.0}}},
+                          'theta': 1.0, 'max_mut': 3, 'configs': cf})
+    for c in cases:
+        c['perm_items'] = [[rng.choice([1, 2, 3, 8, 9, 11, 16]) for _ in range(rng.randrange(1, 6))] for _ in range(6)] + [[1, 1, 8], [8, 8, 1], [2, 9, 9, 9]]
     outs = C.run_impl_parallel('mutation.py', [{'cases': [c]} for c in cases], timeout=1800)
     bodies, keep = [], []
     for i, (c, o) in enumerate(zip(cases, outs)):
@@ -59,22 +71,29 @@ def run(res, replay=None):
               f'  showQs (map (mutation_prob OpsQ Sm Rs al tr {C.qlit(c["theta"])}) {cfgs}) end).\n') if c['theta'] > 0 else \
              'Eval vm_compute in (@nil (Z*Z)).\n'
         mm = c['max_mut']
+        b += 'Eval vm_compute in (map (fun l => dedup (permutations l)) ' + C.coqlist([C.natlist(l) for l in c['perm_items']]) + ').\n'
         b += f'Eval vm_compute in (flat_map (fun k => partitions_sum ({n} - 1) k) (seq 0 {mm + 1})).\n'
         b += 'Eval vm_compute in (map (unfold_config ' + f'{n}%nat) ' + C.coqlist([C.natlist(cf) for cf in r['fconfigs']]) + ').\n'
         bodies.append(b)
         keep.append((c, r))
     couts = C.run_coq_cases('C16', 'mutation', HEADER, bodies, timeout=1800)
     for (c, r), (rc, vals, raw) in zip(keep, couts):
-        if rc != 0 or len(vals) != 3:
+        if rc != 0 or len(vals) != 4:
             res.violation('model evaluation failed', {'case': c, 'coq_output': raw[-1500:]}, concrete=False)
             continue
         key = gen.spec_key(c['spec'])
         theta = c['theta']
         mp = [Fr(a, b_) for a, b_ in C.parse_term(vals[0])]
-        mconfigs = C.parse_term(vals[1])
-        munfold = C.parse_term(vals[2])
+        mperms = C.parse_term(vals[1])
+        for items, mpm, ipm in zip(c['perm_items'], mperms, r['perms']):
+            res.count((key, 'perm', tuple(items)))
+            if sorted(list(x) for x in mpm) != ipm:
+                res.violation('multiset_permutations does not enumerate each distinct ordering exactly once',
+                              {'case': c, 'items': items, 'model': sorted(list(x) for x in mpm)[:6], 'observed': ipm[:6]})
+        mconfigs = C.parse_term(vals[2])
+        munfold = C.parse_term(vals[3])
         n = sum(r['dump']['config'])
-        if n > 2 and [list(x) for x in mconfigs] != r['configs']:
+        if n > 2 and not c.get('configs') and [list(x) for x in mconfigs] != r['configs']:
             res.violation('_get_configs differs from the model enumeration', {'case': c, 'model': mconfigs[:6], 'observed': r['configs'][:6]})
         for cf, mu, iu in zip(r['fconfigs'], munfold, r['unfold']):
             if sorted([list(u) for u in mu]) != iu:
@@ -101,7 +120,7 @@ def run(res, replay=None):
             res.violation('generated mass is not the running, non-decreasing sum bounded by 1',
                           {'case': c, 'generated_mass': r['generated_mass'][-5:]})
         # empty configuration = Laplace transform
-        if theta > 0 and abs(r['probs'][0] - r['laplace']) > 1e-9:
+        if theta > 0 and not c.get('configs') and abs(r['probs'][0] - r['laplace']) > 1e-9:
             res.violation('empty configuration is not the Laplace transform of the total branch length',
                           {'case': c, 'p_empty': r['probs'][0], 'laplace': r['laplace']})
         # folded = sum over unfoldings
